@@ -51,8 +51,8 @@ type injection struct {
 
 var unparseableNumbers = []string{"abc", "1.5.2", "--"}
 var outOfRangeInt32 = []string{"2147483648", "4294967298", "-6442450344", "99999999999999999999", "-2147483649"}
-var unparseableTimes = []string{"abc", "12:xx:00", "1:2:3:4"}
-var unparseableDates = []string{"abcd", "2024-01-01", "20241301", "2024010"}
+var unparseableTimes = []string{"abc", "12:xx:00", "1:2:3:4", "06:00:00\xa0", "\x8506:00:00", "06\xa0:00:00"}
+var unparseableDates = []string{"abcd", "2024-01-01", "20241301", "2024010", "20230229", "19000229", "21000229", "20240230", "20240431", "20240015", "20240100"}
 
 // catalogue builds every rejected-row variant for one file, starting from a valid template row.
 func c09Catalogue(t *sim.T, m *gen.StaticModel, tb *gen.Table, variant int) []injection {
@@ -90,6 +90,23 @@ func c09Catalogue(t *sim.T, m *gen.StaticModel, tb *gen.Table, variant int) []in
 			if short != "" {
 				// the next few numbers after this feed's own ids: other (larger) feeds use exactly those
 				return fmt.Sprintf("%s%d", short, pool+(variant/3)%4)
+			}
+		}
+		if variant%3 == 2 {
+			// a near miss of an id that does exist: padded, other case, other leading zeros
+			pools := map[string][]string{"noagency": m.AgencyIDs, "noroute": m.RouteIDs, "nostop": m.StopIDs, "nosvc": m.ServiceIDs, "notrip": m.TripIDs}
+			if ids := pools[p]; len(ids) > 0 {
+				old := ids[variant%len(ids)]
+				nm := []string{old + " ", " " + old, strings.ToUpper(old), "0" + old, "00" + old, old + ".0", old + "\u00a0"}[(variant/3)%7]
+				exists := false
+				for _, id := range ids {
+					if id == nm {
+						exists = true
+					}
+				}
+				if !exists {
+					return nm
+				}
 			}
 		}
 		return fmt.Sprintf("%s_fresh_%d", p, variant)
